@@ -140,6 +140,18 @@ pub fn check_text(ctx: &mut Ctx, b: &[u8]) {
     }
     let r = sonic_rs::from_reader::<_, Value>(&ex[..]);
     expect(ctx, "from_reader<Value>", Class::Full, &v, r.is_ok(), &|| e2s(&r));
+    // readers that answer with short reads (pipes, sockets, Chain): the whole input counts
+    {
+        use std::io::Read as _;
+        let chunk = 1 + (b.len() % 7);
+        let r = sonic_rs::from_reader::<_, Value>(crate::mon::common::ChunkReader { data: &ex[..], chunk });
+        expect(ctx, "from_reader(short reads)<Value>", Class::Full, &v, r.is_ok(), &|| e2s(&r));
+        let mid = ex.len() / 2;
+        let r = sonic_rs::from_reader::<_, Value>((&ex[..mid]).chain(&ex[mid..]));
+        expect(ctx, "from_reader(Chain)<Value>", Class::Full, &v, r.is_ok(), &|| e2s(&r));
+        let r = sonic_rs::from_reader::<_, sonic_rs::OwnedLazyValue>(crate::mon::common::ChunkReader { data: &ex[..], chunk: 4096 + chunk });
+        expect(ctx, "from_reader(short reads)<OwnedLazyValue>", Class::Skip, &v, r.is_ok(), &|| e2s(&r));
+    }
 
     // ---- FULL: serde_json::Value through sonic's deserializer (any-typed visitor)
     let r = sonic_rs::from_slice::<serde_json::Value>(&ex);
